@@ -2,17 +2,16 @@
 
    reachD: allocator creation, then ordinary API calls (while no defragmentation pass is open) and the
    defragmentation calls BeginDefragmentation / BeginDefragPass / EndDefragPass / Finish, each with any fault
-   oracle.  PARTIAL in two respects, both explicit in the relation:
-     - ordinary calls are allowed only between passes (run_idle): the model does not cover a user who allocates
-       or frees while a pass is open;
-     - BeginDefragPass is allowed only when no pass is open and every block list of the context has
-       granularity 1 (lists_g1): the planner proofs (DefragProofs.WF) are for TLSF metadata of granularity 1.
-       With bufferImageGranularity 1 (eff_granularity c = 1) every list qualifies.
+   oracle, for any bufferImageGranularity (a power of two up to 2^32: VamInv.cfg_ok).  Explicit in the relation:
+     - an ordinary call while a pass is open must leave the Allocation objects of the pending moves alone (op_avoids);
+     - BeginDefragPass is allowed only when no pass is open.
+   The granularity bookkeeping of the TLSF blocks (VamGran.GV: what the planner's precondition DefragGranProofs.WFp needs beyond
+   VamInv) is an invariant of these histories: reachD_gv.
    Results PANIC / STUCK end a history, as in reach. *)
 From Coq Require Import ZArith NArith List Bool Lia Permutation.
-From Arsenal Require Util Bits SyncMem Budget Select Pass PassProofs Defrag DefragProofs.
+From Arsenal Require Util Bits SyncMem Budget Select Pass PassProofs Defrag.
 From Arsenal Require Import VamDev VamBlockList VamDefrag Vam VamInvMeta VamInv VamInvUpd VamInvDev VamInvStep VamInvStep2 VamInvThm
-  VamProps VamDefragInv VamDefragStep VamDefragPass.
+  VamProps VamGran VamDefragInv VamDefragStep VamDefragPass VamDefragGran.
 Import ListNotations.
 Open Scope Z_scope.
 
@@ -22,7 +21,7 @@ Definition drun_idle (run : option dfrun) : Prop := match run with Some rn => ru
 (* the domain of a defragmentation call *)
 Definition dop_ok (v : vam) (run : option dfrun) (o : dop) : Prop :=
   match o, run with
-  | DPass, Some rn => run_idle rn /\ lists_g1 v rn
+  | DPass, Some rn => run_idle rn
   | _, _ => True
   end.
 
@@ -53,10 +52,10 @@ Definition dexec_post (v v' : vam) (run' : option dfrun) (r : out unit) : Prop :
   match r with PANIC | STUCK => True | _ => VamInv c v' /\ drun_ok v' run' /\ zlen (v_tab v) <= zlen (v_tab v') end.
 
 Lemma dexec_inv v run o :
-  VamInv c v -> drun_ok v run -> dop_ok v run o ->
+  VamInv c v -> GV v -> drun_ok v run -> dop_ok v run o ->
   let '(v', run', r, dr) := dexec c v run o in dexec_post v v' run' r.
 Proof.
-  intros HI Hr Hok. destruct o as [flags pool mb ma| |ds|]; cbn [dexec].
+  intros HI HV Hr Hok. destruct o as [flags pool mb ma| |ds|]; cbn [dexec].
   - (* BeginDefragmentation *)
     pose proof (defrag_begin_inv c v flags pool mb ma HI) as P.
     assert (Hnew : forall v1 rn, defrag_begin c v flags pool mb ma = (v1, OK rn) -> run_idle rn /\ 0 <= dr_max_bytes rn /\ 0 <= dr_max_allocs rn).
@@ -73,8 +72,8 @@ Proof.
     + destruct (Hnew v1 rn eq_refl) as (A & B & C). split; [exact I1|]. split; [apply run_idle_ok; auto|apply grown_len; exact G1].
     + split; [exact I1|]. split; [|apply grown_len; exact G1]. destruct run as [rn|]; [eapply run_ok_grown; eauto|exact I].
   - (* BeginDefragPass *)
-    destruct run as [rn|]; [|exact I]. destruct Hok as (Hidle & HG).
-    pose proof (defrag_pass_inv c v rn HI Hr Hidle HG) as P.
+    destruct run as [rn|]; [|exact I]. pose proof Hok as Hidle.
+    pose proof (defrag_pass_inv c v rn HI Hr Hidle HV) as P.
     destruct (defrag_pass c v rn) as ((v1 & rn') & r). destruct r as [mvs|code| |]; cbn; auto; [|contradiction].
     destruct P as (I1 & L1 & G1 & R1 & _). split; [exact I1|]. split; [exact R1|apply grown_len; exact G1].
   - (* EndDefragPass *)
@@ -88,26 +87,66 @@ Proof.
     pose proof (tab_frame_grown _ _ T1) as G1. cbn. split; [exact I1|]. split; [eapply run_ok_grown; eauto|apply grown_len; exact G1].
 Qed.
 
+(* the granularity bookkeeping through one defragmentation call *)
+Lemma dexec_G v run o :
+  VamInv c v -> GV v -> drun_ok v run -> dop_ok v run o ->
+  let '(v', run', r, dr) := dexec c v run o in match r with PANIC | STUCK => True | _ => GV v' end.
+Proof.
+  intros HI HV Hr Hok. destruct o as [flags pool mb ma| |ds|]; cbn [dexec].
+  - pose proof (defrag_begin_G c v flags pool mb ma HV) as P. destruct (defrag_begin c v flags pool mb ma) as (v1 & r). destruct r; exact P || exact I.
+  - destruct run as [rn|]; [|exact I].
+    pose proof (defrag_pass_inv c v rn HI Hr Hok HV) as P0. pose proof (defrag_pass_G c v rn) as P.
+    destruct (defrag_pass c v rn) as ((v1 & rn') & r). destruct r as [mvs|code| |]; try exact I; [|contradiction].
+    eapply P; eauto.
+  - destruct run as [rn|]; [|exact I].
+    pose proof (defrag_end_inv c v rn ds HI Hr) as P0. pose proof (defrag_end_G c v rn ds HI Hr HV) as P.
+    destruct (defrag_end c v rn ds) as ((v1 & rn') & r). destruct r as [b|code| |]; try exact I; [exact P|contradiction].
+  - destruct run as [rn|]; [|exact I]. pose proof (defrag_finish_G v rn HV) as P. destruct (defrag_finish v rn) as (v1 & st). exact P.
+Qed.
+
 Lemma run_ok_set_m v m run : run_ok v run -> run_ok (set_m v m) run.
 Proof. apply run_ok_grown. split; [cbn; lia|intros; reflexivity]. Qed.
 
 (* one defragmentation call, any fault oracle *)
 Theorem dstep_preserves v run o f :
-  VamInv c v -> drun_ok v run -> dop_ok v run o ->
+  VamInv c v -> GV v -> drun_ok v run -> dop_ok v run o ->
   let '(v', run', r, calls, dr) := dstep c v run o f in
   r <> RPanic -> r <> RStuck -> VamInv c v' /\ drun_ok v' run' /\ zlen (v_tab v) <= zlen (v_tab v').
 Proof.
-  intros HI Hr Hok. unfold dstep.
+  intros HI HV Hr Hok. unfold dstep.
   set (v0 := set_m v (clear_calls (set_fault (v_m v) f 0))).
   assert (I0 : VamInv c v0).
   { unfold v0, VamInv. apply VamInvU_mach_same; [exact HI|]. split; cbn; [apply mems_same_refl|lia]. }
   assert (Hr0 : drun_ok v0 run) by (destruct run as [rn|]; [apply run_ok_set_m; exact Hr|exact I]).
   assert (Hok0 : dop_ok v0 run o).
   { destruct o; cbn in *; auto. }
-  pose proof (dexec_inv v0 run o I0 Hr0 Hok0) as E. destruct (dexec c v0 run o) as (((v1 & run1) & r) & dr).
+  pose proof (dexec_inv v0 run o I0 (GR_set_m v _ HV) Hr0 Hok0) as E. destruct (dexec c v0 run o) as (((v1 & run1) & r) & dr).
   intros Hp Hs. destruct r as [[]|code| |]; cbn in Hp, Hs; try congruence; cbn in E; destruct E as (A & B & C);
     (split; [unfold VamInv; apply VamInvU_mach_same; [exact A|split; cbn; [apply mems_same_refl|lia]]|];
      split; [destruct run1 as [rn1|]; [apply run_ok_set_m; exact B|exact I]|exact C]).
+Qed.
+
+Theorem dstep_G v run o f :
+  VamInv c v -> GV v -> drun_ok v run -> dop_ok v run o ->
+  let '(v', run', r, calls, dr) := dstep c v run o f in r <> RPanic -> r <> RStuck -> GV v'.
+Proof.
+  intros HI HV Hr Hok. unfold dstep.
+  set (v0 := set_m v (clear_calls (set_fault (v_m v) f 0))).
+  assert (I0 : VamInv c v0).
+  { unfold v0, VamInv. apply VamInvU_mach_same; [exact HI|]. split; cbn; [apply mems_same_refl|lia]. }
+  assert (Hr0 : drun_ok v0 run) by (destruct run as [rn|]; [apply run_ok_set_m; exact Hr|exact I]).
+  assert (Hok0 : dop_ok v0 run o) by (destruct o; cbn in *; auto).
+  pose proof (dexec_G v0 run o I0 (GR_set_m v _ HV) Hr0 Hok0) as E. destruct (dexec c v0 run o) as (((v1 & run1) & r) & dr).
+  intros Hp Hs. destruct r as [[]|code| |]; cbn in Hp, Hs; try congruence; apply GR_set_m; exact E.
+Qed.
+
+(* an ordinary API call *)
+Theorem step_G v o f : VamInv c v -> GV v -> GV (fst (fst (step c v o f))).
+Proof.
+  intros HI HV. unfold step. set (v0 := set_m v (clear_calls (set_fault (v_m v) f 0))).
+  assert (I0 : VamInv c v0).
+  { unfold v0, VamInv. apply VamInvU_mach_same; [exact HI|]. split; cbn; [apply mems_same_refl|lia]. }
+  pose proof (exec_G c Hc v0 o I0 (GR_set_m v _ HV)) as E. destruct (exec c v0 o) as (v1 & r). cbn [fst] in *. apply GR_set_m. exact E.
 Qed.
 
 (* the Allocation objects of the pending moves (sources and temporaries) of an open pass *)
@@ -154,27 +193,28 @@ Inductive reachD : vam -> option dfrun -> Prop :=
     reachD v run -> dop_ok v run o -> dstep c v run o f = (v', run', r, calls, dr) -> r <> RPanic -> r <> RStuck ->
     reachD v' run'.
 
-Theorem reachD_inv v run : reachD v run -> VamInv c v /\ drun_ok v run.
+Theorem reachD_inv_gv v run : reachD v run -> (VamInv c v /\ drun_ok v run) /\ GV v.
 Proof.
   intros R. induction R as [nslots v H|v run o f v' r calls R IH Hav Hok Hs Hp Hk|v run o f v' run' r calls dr R IH Hok Hs Hp Hk].
-  - split; [eapply vam_new_inv; eauto|exact I].
-  - destruct IH as (HI & Hr). pose proof (step_preserves c Hc v o f HI Hok) as P. rewrite Hs in P. destruct (P Hp Hk) as (I1 & _).
+  - split; [split; [eapply vam_new_inv; eauto|exact I]|eapply vam_new_G; eauto].
+  - destruct IH as ((HI & Hr) & HV). pose proof (step_preserves c Hc v o f HI Hok) as P. rewrite Hs in P. destruct (P Hp Hk) as (I1 & _).
     pose proof (step_frame c Hc v o f HI Hok) as F. rewrite Hs in F. specialize (F Hp Hk).
-    split; [exact I1|]. destruct run as [rn|]; [|exact I]. eapply run_ok_avoid_frame; eauto.
-  - destruct IH as (HI & Hr). pose proof (dstep_preserves v run o f HI Hr Hok) as P. rewrite Hs in P. destruct (P Hp Hk) as (I1 & R1 & _). auto.
+    pose proof (step_G v o f HI HV) as V1. rewrite Hs in V1. cbn [fst] in V1.
+    split; [|exact V1]. split; [exact I1|]. destruct run as [rn|]; [|exact I]. eapply run_ok_avoid_frame; eauto.
+  - destruct IH as ((HI & Hr) & HV). pose proof (dstep_preserves v run o f HI HV Hr Hok) as P. rewrite Hs in P. destruct (P Hp Hk) as (I1 & R1 & _).
+    pose proof (dstep_G v run o f HI HV Hr Hok) as V1. rewrite Hs in V1. auto.
 Qed.
 
-(* with bufferImageGranularity 1 every block list has granularity 1 *)
-Lemma lists_g1_eff v run : eff_granularity c = 1 -> VamInv c v -> lists_g1 v run.
-Proof.
-  intros E HI i dc l _ Hg. destruct (bw_gran_src _ _ (vi_lists _ _ _ _ HI _ _ Hg)) as [H|H]; [exact H|].
-  rewrite H. exact E.
-Qed.
+Theorem reachD_inv v run : reachD v run -> VamInv c v /\ drun_ok v run.
+Proof. intros R. apply (reachD_inv_gv v run R). Qed.
 
+(* the granularity bookkeeping of every TLSF block is sound in every state of every history *)
+Theorem reachD_gv v run : reachD v run -> GV v.
+Proof. intros R. apply (reachD_inv_gv v run R). Qed.
+
+(* the domain condition of BeginDefragPass is "no pass is open" (kept under its name from when granularity 1 was required) *)
 Lemma dop_ok_eff v run o : eff_granularity c = 1 -> VamInv c v -> drun_idle run -> dop_ok v run o.
-Proof.
-  intros E HI Hi. destruct o; cbn; auto. destruct run as [rn|]; [|exact I]. split; [exact Hi|apply lists_g1_eff; auto].
-Qed.
+Proof. intros _ _ Hi. destruct o; cbn; auto; destruct run as [rn|]; auto. Qed.
 
 (* BeginDefragmentation returns a context without pending moves *)
 Lemma defrag_begin_idle v flags pool mb ma v1 rn : defrag_begin c v flags pool mb ma = (v1, OK rn) -> run_idle rn.
